@@ -72,6 +72,9 @@ def main(tier, seed):
         "sum-coded pieces are decided by C13",
     ]
     order_theorem(rep, 4, 4 if tier == "quick" else 5)
+    from fv import callkinds
+
+    callkinds.run(rep, "C04")   # CallKinds.tla: what becomes of the value a call returns
     if tier == "quick":
         design_mc.run(rep, "C04", seed, n=3, nf=3, ng=2)
         design_trace.run(rep, "C04", 900, seed, {"nmax": 16})
